@@ -1,7 +1,277 @@
-(* Lemmas about Model/Series.v *)
-From Coq Require Import Lia.
+(* Lemmas about Model/Series.v: the bucket range, the byte order used by sort.Strings, the
+   tags key as a function of the *set-with-multiplicity* of tags (not their order), and a
+   partial converse (well-formed identities with equal keys are equal up to tag order). *)
+From Coq Require Import Lia Permutation.
 From GS Require Import Base.Bytes Model.Series.
 Local Open Scope N_scope.
 
 Lemma bucket_range name key n : n <> 0 -> bucket name key n < n.
 Proof. intros Hn; unfold bucket; apply N.mod_lt; exact Hn. Qed.
+
+(* uint32 addition: the sum that is reduced modulo the shard count is below 2^32 *)
+Lemma bucket_sum_u32 name key : (adler32 name + adler32 key) mod 4294967296 < 4294967296.
+Proof. apply N.mod_lt; discriminate. Qed.
+
+(* ---------------------------------------------------------------------------------------- *)
+(* str_leb is a total order on byte strings *)
+
+Lemma str_leb_refl a : str_leb a a = true.
+Proof. induction a as [|x a IH]; cbn; [reflexivity|]. rewrite N.ltb_irrefl; exact IH. Qed.
+
+Lemma str_leb_total a b : str_leb a b = true \/ str_leb b a = true.
+Proof.
+  revert b; induction a as [|x a IH]; intros [|y b]; cbn; auto.
+  destruct (N.ltb_spec x y), (N.ltb_spec y x); auto; lia.
+Qed.
+
+Lemma str_leb_antisym a b : str_leb a b = true -> str_leb b a = true -> a = b.
+Proof.
+  revert b; induction a as [|x a IH]; intros [|y b]; cbn; try congruence.
+  destruct (N.ltb_spec x y), (N.ltb_spec y x); try congruence; try lia.
+  intros H1 H2; assert (x = y) by lia; subst; f_equal; auto.
+Qed.
+
+Lemma str_leb_trans a b c : str_leb a b = true -> str_leb b c = true -> str_leb a c = true.
+Proof.
+  revert b c; induction a as [|x a IH]; intros [|y b] [|z c]; cbn; try congruence.
+  destruct (N.ltb_spec x y), (N.ltb_spec y x), (N.ltb_spec y z), (N.ltb_spec z y),
+    (N.ltb_spec x z), (N.ltb_spec z x); try congruence; try lia.
+  apply IH.
+Qed.
+
+Lemma str_leb_false a b : str_leb a b = false -> str_leb b a = true.
+Proof. destruct (str_leb_total a b) as [H|H]; congruence. Qed.
+
+(* ---------------------------------------------------------------------------------------- *)
+(* insertion sort: insertions commute, so the sorted list depends only on the multiset *)
+
+Lemma insert_sorted_comm x y l :
+  insert_sorted x (insert_sorted y l) = insert_sorted y (insert_sorted x l).
+Proof.
+  induction l as [|z r IH]; cbn.
+  - destruct (str_leb x y) eqn:Hxy, (str_leb y x) eqn:Hyx; try reflexivity.
+    + rewrite (str_leb_antisym _ _ Hxy Hyx); reflexivity.
+    + apply str_leb_false in Hxy; congruence.
+  - destruct (str_leb y z) eqn:Hyz, (str_leb x z) eqn:Hxz; cbn.
+    + destruct (str_leb x y) eqn:Hxy, (str_leb y x) eqn:Hyx; cbn; rewrite ?Hyz, ?Hxz; try reflexivity.
+      * rewrite (str_leb_antisym _ _ Hxy Hyx); reflexivity.
+      * apply str_leb_false in Hxy; congruence.
+    + rewrite Hyz.
+      destruct (str_leb x y) eqn:Hxy; cbn.
+      * rewrite (str_leb_trans _ _ _ Hxy Hyz) in Hxz; discriminate.
+      * rewrite Hxz; reflexivity.
+    + rewrite Hxz.
+      destruct (str_leb y x) eqn:Hyx; cbn.
+      * rewrite (str_leb_trans _ _ _ Hyx Hxz) in Hyz; discriminate.
+      * rewrite Hyz; reflexivity.
+    + rewrite Hyz, Hxz, IH; reflexivity.
+Qed.
+
+Lemma sort_tags_perm l l' : Permutation l l' -> sort_tags l = sort_tags l'.
+Proof.
+  unfold sort_tags; induction 1 as [|x l l' _ IH|x y l|l l' l'' _ IH1 _ IH2]; cbn [fold_right].
+  - reflexivity.
+  - rewrite IH; reflexivity.
+  - apply insert_sorted_comm.
+  - congruence.
+Qed.
+
+Lemma insert_sorted_permutation x l : Permutation (insert_sorted x l) (x :: l).
+Proof.
+  induction l as [|y r IH]; cbn; [reflexivity|].
+  destruct (str_leb x y); [reflexivity|].
+  rewrite IH; apply perm_swap.
+Qed.
+
+(* the sorted list holds exactly the given tags, duplicates included *)
+Lemma sort_tags_permutation l : Permutation (sort_tags l) l.
+Proof.
+  unfold sort_tags; induction l as [|x l IH]; cbn [fold_right]; [reflexivity|].
+  rewrite insert_sorted_permutation, IH; reflexivity.
+Qed.
+
+Lemma sort_tags_eq_iff l l' : sort_tags l = sort_tags l' <-> Permutation l l'.
+Proof.
+  split; [|apply sort_tags_perm].
+  intros H. rewrite <- (sort_tags_permutation l), H. apply sort_tags_permutation.
+Qed.
+
+(* the output of the sort is ascending (what sort.Strings guarantees) *)
+Inductive ascending : list str -> Prop :=
+| asc_nil : ascending []
+| asc_one x : ascending [x]
+| asc_cons x y r : str_leb x y = true -> ascending (y :: r) -> ascending (x :: y :: r).
+
+Lemma insert_sorted_ascending x l : ascending l -> ascending (insert_sorted x l).
+Proof.
+  induction 1 as [|y|y z r Hyz Hr IH]; cbn.
+  - constructor.
+  - destruct (str_leb x y) eqn:E; constructor; auto using asc_one, str_leb_false.
+  - destruct (str_leb x y) eqn:E.
+    + repeat constructor; auto.
+    + cbn in IH. destruct (str_leb x z) eqn:E2.
+      * constructor; [apply str_leb_false; exact E|]. constructor; auto.
+      * constructor; auto.
+Qed.
+
+Lemma sort_tags_ascending l : ascending (sort_tags l).
+Proof.
+  unfold sort_tags; induction l; cbn [fold_right]; [constructor|apply insert_sorted_ascending; assumption].
+Qed.
+
+(* ---------------------------------------------------------------------------------------- *)
+(* The tags key depends on (multiset of tags, source) only: the order in which a client wrote
+   the tags, or in which an earlier stage appended them, does not matter. *)
+
+Lemma tags_key_perm src l l' : Permutation l l' -> tags_key src l = tags_key src l'.
+Proof. intros H; unfold tags_key; rewrite (sort_tags_perm _ _ H); reflexivity. Qed.
+
+Lemma bucket_perm name src l l' n :
+  Permutation l l' -> bucket name (tags_key src l) n = bucket name (tags_key src l') n.
+Proof. intros H; rewrite (tags_key_perm _ _ _ H); reflexivity. Qed.
+
+(* The key is NOT injective on arbitrary (tags, source) pairs — by design two such pairs with
+   the same key are one series for gostatsd (DESIGN 6, C06 note). *)
+Example tags_key_collision_source :
+  tags_key [] [[97]; [115; 58; 120]] = tags_key [120] [[97]].          (* ["a","s:x"],"" vs ["a"],"x" *)
+Proof. reflexivity. Qed.
+Example tags_key_collision_comma :
+  tags_key [] [[97; 44; 98]] = tags_key [] [[97]; [98]].                (* ["a,b"] vs ["a","b"] *)
+Proof. reflexivity. Qed.
+Example tags_key_collision_empty : tags_key [] [] = tags_key [] [[]].    (* no tag vs one empty tag *)
+Proof. reflexivity. Qed.
+
+(* ---------------------------------------------------------------------------------------- *)
+(* Partial converse.  A tag is plain when it is non-empty, holds no comma and does not begin
+   with "s:" (the marker FormatTagsKey uses for the source); a source is plain when it holds no
+   comma.  On plain identities the key determines the source and the tags up to order. *)
+
+Definition no_comma (s : str) : Prop := ~ In c_comma s.
+Definition src_marked (s : str) : bool :=
+  match s with a :: b :: _ => (a =? c_s) && (b =? c_colon) | _ => false end.
+Definition plain_tag (t : str) : Prop := t <> [] /\ no_comma t /\ src_marked t = false.
+
+(* strings.Split(s, ",") *)
+Fixpoint split_commas (s : str) : list str :=
+  match s with
+  | [] => [[]]
+  | c :: r => if c =? c_comma then [] :: split_commas r
+              else match split_commas r with
+                   | [] => [[c]]   (* unreachable: the result is never empty *)
+                   | h :: t => (c :: h) :: t
+                   end
+  end.
+
+Lemma split_commas_app_comma a b :
+  no_comma a -> split_commas (a ++ c_comma :: b) = a :: split_commas b.
+Proof.
+  unfold no_comma; induction a as [|c a IH]; intros Ha; cbn [app split_commas].
+  - rewrite N.eqb_refl; reflexivity.
+  - destruct (N.eqb_spec c c_comma) as [->|Hc]; [exfalso; apply Ha; left; reflexivity|].
+    rewrite IH; [reflexivity|]. intros Hin; apply Ha; right; exact Hin.
+Qed.
+
+Lemma split_commas_plain a : no_comma a -> split_commas a = [a].
+Proof.
+  unfold no_comma; induction a as [|c a IH]; intros Ha; cbn [split_commas]; [reflexivity|].
+  destruct (N.eqb_spec c c_comma) as [->|Hc]; [exfalso; apply Ha; left; reflexivity|].
+  rewrite IH; [reflexivity|]. intros Hin; apply Ha; right; exact Hin.
+Qed.
+
+(* the comma-separated fields of join "," l *)
+Definition fields (l : list str) : list str := match l with [] => [[]] | _ => l end.
+
+Lemma join_cons2 sep x y r : join sep (x :: y :: r) = x ++ sep :: join sep (y :: r).
+Proof. reflexivity. Qed.
+
+Lemma split_commas_join l : Forall no_comma l -> split_commas (join c_comma l) = fields l.
+Proof.
+  induction 1 as [|x r Hx Hr IH]; [reflexivity|].
+  destruct r as [|y r]; [apply split_commas_plain; exact Hx|].
+  rewrite join_cons2, split_commas_app_comma by exact Hx. rewrite IH; reflexivity.
+Qed.
+
+Lemma split_commas_join_app l b :
+  Forall no_comma l -> split_commas (join c_comma l ++ c_comma :: b) = fields l ++ split_commas b.
+Proof.
+  induction 1 as [|x r Hx Hr IH]; [cbn [join fields app split_commas]; rewrite N.eqb_refl; reflexivity|].
+  destruct r as [|y r].
+  - cbn [join fields]. rewrite split_commas_app_comma by exact Hx; reflexivity.
+  - rewrite join_cons2, <- app_assoc; cbn [app]. rewrite split_commas_app_comma by exact Hx.
+    rewrite IH; reflexivity.
+Qed.
+
+Definition src_field (src : str) : list str :=
+  match src with [] => [] | _ => [c_s :: c_colon :: src] end.
+
+Lemma split_commas_tags_key src l :
+  Forall no_comma l -> no_comma src ->
+  split_commas (tags_key src l) = fields (sort_tags l) ++ src_field src.
+Proof.
+  intros Hl Hs. assert (Hsl : Forall no_comma (sort_tags l)).
+  { rewrite Forall_forall in *. intros x Hx. apply Hl.
+    eapply Permutation_in; [apply sort_tags_permutation|exact Hx]. }
+  unfold tags_key; destruct src as [|c src]; cbn [src_field].
+  - rewrite app_nil_r; apply split_commas_join; exact Hsl.
+  - rewrite split_commas_join_app by exact Hsl. f_equal.
+    apply split_commas_plain. unfold no_comma in *; cbn; intros [H|[H|H]]; try discriminate.
+    apply Hs; exact H.
+Qed.
+
+Lemma fields_last_unmarked l :
+  Forall (fun t => src_marked t = false) l -> forall a x, fields l = a ++ [x] -> src_marked x = false.
+Proof.
+  intros Hl a x E. destruct l as [|y r]; cbn [fields] in E.
+  - destruct a as [|? [|? ?]]; inversion E; reflexivity.
+  - rewrite Forall_forall in Hl; apply Hl. rewrite E; apply in_or_app; right; left; reflexivity.
+Qed.
+
+Lemma tags_key_inj_plain src src' l l' :
+  Forall plain_tag l -> Forall plain_tag l' -> no_comma src -> no_comma src' ->
+  tags_key src l = tags_key src' l' -> src = src' /\ Permutation l l'.
+Proof.
+  intros Hl Hl' Hs Hs' E.
+  assert (P : forall l, Forall plain_tag l ->
+            Forall no_comma l /\ Forall (fun t => src_marked t = false) (sort_tags l) /\ ~ In [] (sort_tags l)).
+  { clear; intros l H; rewrite !Forall_forall in *; repeat split.
+    - intros x Hx; apply (H x Hx).
+    - intros x Hx; apply (H x). eapply Permutation_in; [apply sort_tags_permutation|exact Hx].
+    - intros Hin. destruct (H []) as [Hne _]; [|congruence].
+      eapply Permutation_in; [apply sort_tags_permutation|exact Hin]. }
+  destruct (P l Hl) as (Hc & Hm & He), (P l' Hl') as (Hc' & Hm' & He').
+  apply (f_equal split_commas) in E.
+  rewrite !split_commas_tags_key in E by assumption.
+  assert (Hsrc : src = src' /\ fields (sort_tags l) = fields (sort_tags l')).
+  { destruct src as [|c s], src' as [|c' s']; cbn [src_field] in E.
+    - rewrite !app_nil_r in E; auto.
+    - rewrite app_nil_r in E. pose proof (fields_last_unmarked _ Hm _ _ E) as F.
+      cbn in F; discriminate.
+    - rewrite app_nil_r in E. symmetry in E. pose proof (fields_last_unmarked _ Hm' _ _ E) as F.
+      cbn in F; discriminate.
+    - apply app_inj_tail in E; destruct E as [E1 E2]; inversion E2; auto. }
+  destruct Hsrc as [-> Hf]; split; [reflexivity|].
+  apply sort_tags_eq_iff.
+  destruct (sort_tags l) as [|x r], (sort_tags l') as [|x' r']; cbn [fields] in Hf; auto.
+  - exfalso; apply He'; rewrite <- Hf; left; reflexivity.
+  - exfalso; apply He; rewrite Hf; left; reflexivity.
+Qed.
+
+(* both directions together: on plain identities, "same tags key" is exactly "same source and
+   the same tags up to order" *)
+Lemma tags_key_identity src src' l l' :
+  Forall plain_tag l -> Forall plain_tag l' -> no_comma src -> no_comma src' ->
+  (tags_key src l = tags_key src' l' <-> src = src' /\ Permutation l l').
+Proof.
+  intros; split; [apply tags_key_inj_plain; assumption|].
+  intros [-> HP]; apply tags_key_perm; exact HP.
+Qed.
+
+(* hypotheses satisfiable on a non-trivial identity *)
+Example plain_identity_example :
+  Forall plain_tag [[98; 58; 49]; [97]] /\ no_comma [49; 46; 50] /\
+  tags_key [49; 46; 50] [[98; 58; 49]; [97]] = [97; 44; 98; 58; 49; 44; 115; 58; 49; 46; 50].
+Proof.
+  repeat split; try reflexivity.
+  - repeat constructor; try discriminate; unfold no_comma, c_comma; cbn; intuition discriminate.
+  - unfold no_comma, c_comma; cbn; intuition discriminate.
+Qed.
